@@ -10,7 +10,8 @@ use crate::{Env, PropDef};
 use serde::{Deserialize, Serialize};
 use std::collections::BTreeMap;
 use vcore::engine::*;
-use vcore::{BitVec, Code, En};
+use vcore::grid::Rng;
+use vcore::{fail, BitVec, Code, En};
 
 #[derive(Clone, PartialEq, Eq, Hash, Debug, Serialize, Deserialize)]
 pub enum Step {
@@ -30,6 +31,164 @@ pub struct Case {
     pub wcfg: WCfg,
     pub img: Img,
     pub steps: Vec<Step>,
+    /// when present the case is a single very long copy (n beyond 2^32) from a zero-extended source into a counting
+    /// sink, and the other fields are ignored
+    #[serde(default)]
+    pub huge: Option<Huge>,
+}
+
+/// `pre` bits are consumed from a buffered reader (word u32 or u64) over `words` random 64-bit words followed by
+/// zeros for ever, then n bits are copied: `to` = reader.copy_to(bit sink), else writer.copy_from(reader) into a
+/// BufBitWriter over a word-counting sink after `prew` bits.
+#[derive(Clone, Copy, PartialEq, Eq, Hash, Debug, Serialize, Deserialize)]
+pub struct Huge {
+    pub e: En,
+    pub r64: bool,
+    pub pre: u8,
+    pub prew: u8,
+    pub words: u8,
+    pub n: u64,
+    pub to: bool,
+    pub seed: u64,
+}
+
+/// A bit sink that keeps the first 256 bits and counts the rest.
+struct BitSink {
+    e: En,
+    first: BitVec,
+    total: u64,
+    ones: u64,
+}
+macro_rules! impl_bitsink {
+    ($E:ty) => {
+        impl dsi_bitstream::traits::BitWrite<$E> for BitSink {
+            type Error = std::convert::Infallible;
+            fn write_bits(&mut self, v: u64, n: usize) -> Result<usize, Self::Error> {
+                let v = v & mask64(n);
+                if self.first.len() < 256 {
+                    self.first.push_field(v as u128, n, self.e);
+                }
+                self.total += n as u64;
+                self.ones += v.count_ones() as u64;
+                Ok(n)
+            }
+            fn write_unary(&mut self, x: u64) -> Result<usize, Self::Error> {
+                if self.first.len() < 256 {
+                    for _ in 0..x.min(300) {
+                        self.first.push(false);
+                    }
+                    self.first.push(true);
+                }
+                self.total += x + 1;
+                self.ones += 1;
+                Ok(x as usize + 1)
+            }
+            fn flush(&mut self) -> Result<usize, Self::Error> {
+                Ok(0)
+            }
+        }
+    };
+}
+impl_bitsink!(dsi_bitstream::traits::BE);
+impl_bitsink!(dsi_bitstream::traits::LE);
+
+/// A word sink that keeps the first 4 words and counts the rest.
+struct WordSink {
+    first: Vec<u64>,
+    words: u64,
+    ones: u64,
+}
+impl dsi_bitstream::traits::WordWrite for WordSink {
+    type Error = std::convert::Infallible;
+    type Word = u64;
+    fn write_word(&mut self, w: u64) -> Result<(), Self::Error> {
+        if self.first.len() < 4 {
+            self.first.push(w);
+        }
+        self.words += 1;
+        self.ones += w.count_ones() as u64;
+        Ok(())
+    }
+    fn flush(&mut self) -> Result<(), Self::Error> {
+        Ok(())
+    }
+}
+
+fn check_huge(h: &Huge) -> CheckResult {
+    use dsi_bitstream::prelude::*;
+    let mut o = Outcome::new();
+    let mut r = Rng::new(h.seed ^ 0xC08);
+    let data: Vec<u64> = (0..h.words).map(|_| r.next() | 1).collect();
+    let bytes: Vec<u8> = data.iter().flat_map(|w| w.to_ne_bytes()).collect();
+    let model = BitVec::from_bytes(&bytes, h.e);
+    let pre = h.pre as usize;
+    let bit = |i: u64| -> bool { (i as usize) < model.len() && i < model.len() as u64 && model.get(i as usize) };
+    let ones_exp: u64 = (pre as u64..(pre as u64 + h.n).min(model.len() as u64)).filter(|&i| bit(i)).count() as u64;
+    let what = format!("{:?}", h);
+    macro_rules! go {
+        ($E:ty, $W:ty) => {{
+            let words: Vec<$W> = crate::adapters::words_of::<$W>(&bytes);
+            let mut rd = BufBitReader::<$E, _>::new(MemWordReader::<$W, Vec<$W>>::new(words));
+            if rd.read_bits(pre).is_err() {
+                fail!("huge/prefix", "prefix read failed: {}", what);
+            }
+            if h.to {
+                let mut sink = BitSink { e: h.e, first: BitVec::new(), total: 0, ones: 0 };
+                if let Err(er) = rd.copy_to::<$E, _>(&mut sink, h.n) {
+                    fail!("huge/copy_to/err", "{}: copy_to returned {:?}", what, er.to_string());
+                }
+                if sink.total != h.n {
+                    fail!("huge/copy_to/total", "{}: the destination received {} bits", what, sink.total);
+                }
+                if sink.ones != ones_exp {
+                    fail!("huge/copy_to/ones", "{}: the destination received {} one bits, the source holds {} in that range", what, sink.ones, ones_exp);
+                }
+                for i in 0..(sink.first.len() as u64).min(h.n).min(256) {
+                    if sink.first.get(i as usize) != bit(pre as u64 + i) {
+                        fail!("huge/copy_to/bits", "{}: copied bit {} differs from source bit {}", what, i, pre as u64 + i);
+                    }
+                }
+            } else {
+                let mut bw = std::mem::ManuallyDrop::new(BufBitWriter::<$E, _>::new(WordSink { first: vec![], words: 0, ones: 0 }));
+                let pw = h.prew as usize;
+                let _ = bw.write_bits(mask64(pw), pw);
+                if let Err(er) = bw.copy_from::<$E, _>(&mut rd, h.n) {
+                    fail!("huge/copy_from/err", "{}: copy_from returned {:?}", what, er.to_string());
+                }
+                let bw = std::mem::ManuallyDrop::into_inner(bw);
+                let sink = match bw.into_inner() {
+                    Ok(s) => s,
+                    Err(_) => fail!("huge/copy_from/into_inner", "{}: into_inner failed", what),
+                };
+                let total = pw as u64 + h.n;
+                if sink.words != total.div_ceil(64) {
+                    fail!("huge/copy_from/total", "{}: the destination received {} words for {} bits", what, sink.words, total);
+                }
+                if sink.ones != ones_exp + pw as u64 {
+                    fail!("huge/copy_from/ones", "{}: the destination received {} one bits, expected {}", what, sink.ones, ones_exp + pw as u64);
+                }
+                let got = BitVec::from_bytes(&sink.first.iter().flat_map(|w| w.to_ne_bytes()).collect::<Vec<u8>>(), h.e);
+                for i in 0..(got.len() as u64).min(total) {
+                    let exp = if i < pw as u64 { true } else { bit(pre as u64 + i - pw as u64) };
+                    if got.get(i as usize) != exp {
+                        fail!("huge/copy_from/bits", "{}: destination bit {} is wrong", what, i);
+                    }
+                }
+            }
+            match rd.bit_pos() {
+                Ok(p) if p == pre as u64 + h.n => {}
+                other => fail!("huge/position", "{}: the source is at {:?} after the copy, expected {}", what, other.map_err(|e| e.to_string()), pre as u64 + h.n),
+            }
+        }};
+    }
+    match (h.e, h.r64) {
+        (En::BE, true) => go!(BE, u64),
+        (En::BE, false) => go!(BE, u32),
+        (En::LE, true) => go!(LE, u64),
+        (En::LE, false) => go!(LE, u32),
+    }
+    o.nt("copy_longer_than_2^32_bits");
+    Ok(o)
 }
 
 pub const DEF: PropDef = PropDef {
@@ -41,7 +200,8 @@ copies in both directions (reader.copy_to(writer, n), writer.copy_from(reader, n
 refill, and the state left by a table-driven read) x destination fill levels (incl. an empty buffer holding stale bits after a full word, \
 a flush or a unary code ending on the boundary) x every n in 0..=4*max(Wr,Ww)+3 x both directions, each followed \
 by continuation operations on both streams (position query, table-driven code reads, a 64-bit read, a second copy, a write, flush). Random part: \
-proptest byte strings decoded into histories with several copies (n up to 5000). Oracle: bit model: destination bytes == model, source \
+proptest byte strings decoded into histories with several copies (n up to 5000). Huge part: single copies of 2^32-1, 2^32+3, 2^32+64 and 2^33+17 bits from a \
+zero-extended source into counting sinks (bit count, one count, first 256 bits, source position). Oracle: bit model: destination bytes == model, source \
 position advanced by exactly n, every continuation result == model. The whole check runs in builds with the optimised copy paths compiled in \
 and with --features no_copy_impls (generic chunked loop): all must equal the model. Non-trivial: n > 64, or the source held more than one \
 word, or the destination word is u128, or a table-driven read follows a copy, or n is a multiple of neither word size; distinct = distinct \
@@ -58,6 +218,9 @@ case hashes.",
 const FREE: [Code; 2] = [Code::Gamma, Code::Zeta(3)];
 
 pub fn check_case(c: &Case, env: &Env) -> CheckResult {
+    if let Some(h) = &c.huge {
+        return check_huge(h);
+    }
     let e = c.rcfg.e;
     let rw = c.rcfg.r.word().bits();
     let wb = c.wcfg.w.bits();
@@ -326,7 +489,7 @@ fn run(ctx: &Ctx, env: &Env) -> Stats {
                                     steps.extend(cont.iter().cloned());
                                     let wbk = [WBackend::VecBorrowed, WBackend::Recording, WBackend::Slice][k % 3];
                                     let rbk = [RBackend::InfOwned, RBackend::Strict, RBackend::AdapterCursor][(k / 3) % 3];
-                                    part.check(&Case { rcfg: RCfg::new(e, r, rbk), wcfg: WCfg::new(e, w, wbk), img: img.clone(), steps }, &f);
+                                    part.check(&Case { rcfg: RCfg::new(e, r, rbk), wcfg: WCfg::new(e, w, wbk), img: img.clone(), steps, huge: None }, &f);
                                 }
                             }
                         }
@@ -340,7 +503,7 @@ fn run(ctx: &Ctx, env: &Env) -> Stats {
                                     steps.extend(cont.iter().cloned());
                                     let wbk = [WBackend::VecBorrowed, WBackend::Recording, WBackend::Slice][k % 3];
                                     let rbk = [RBackend::InfOwned, RBackend::Strict, RBackend::AdapterCursor][(k / 3) % 3];
-                                    part.check(&Case { rcfg: RCfg::new(e, r, rbk), wcfg: WCfg::new(e, w, wbk), img: img.clone(), steps }, &f);
+                                    part.check(&Case { rcfg: RCfg::new(e, r, rbk), wcfg: WCfg::new(e, w, wbk), img: img.clone(), steps, huge: None }, &f);
                                 }
                             }
                         }
@@ -350,6 +513,26 @@ fn run(ctx: &Ctx, env: &Env) -> Stats {
             }
         }
     }
+    jobs.push(Box::new(move |ctx: &Ctx| {
+        let mut part = Part::new(ctx, "huge", "single copies of more than 2^32 bits from a zero-extended source into counting sinks, both directions, both endiannesses", true);
+        let f = |c: &Case| check_case(c, env);
+        let dummy_r = RCfg::new(En::BE, RKind::Buf(Wd::U64), RBackend::InfOwned);
+        let dummy_w = WCfg::new(En::BE, Wd::U64, WBackend::VecOwned);
+        for e in En::ALL {
+            for (r64, pre) in [(true, 1u8), (true, 0), (false, 7)] {
+                for (k, n) in [(1u64 << 32) + 3, (1 << 32) + 64, (1u64 << 32) - 1, (1u64 << 33) + 17].into_iter().enumerate() {
+                    if ctx.quick() && k >= 2 && !(r64 && pre == 1) {
+                        continue;
+                    }
+                    for to in [true, false] {
+                        let h = Huge { e, r64, pre, prew: if to { 0 } else { 5 }, words: 3, n, to, seed: n ^ pre as u64 };
+                        part.check(&Case { rcfg: dummy_r, wcfg: dummy_w, img: Img::Pattern { pat: Pat::Zeros, bits: 64, seed: 0, zero_from: None, one_at: None }, steps: vec![], huge: Some(h) }, &f);
+                    }
+                }
+            }
+        }
+        part.finish()
+    }));
     let n_rand = ctx.t(25_000u64, 2_000_000);
     for j in 0..16 {
         jobs.push(Box::new(move |ctx: &Ctx| {
@@ -393,7 +576,7 @@ pub fn gen_case(s: &mut Src) -> Case {
             }
         });
     }
-    Case { rcfg: RCfg::new(e, r, rb), wcfg: WCfg::new(e, w, wbk), img: Img::Pattern { pat: Pat::Random, bits, seed: s.u16() as u64, zero_from: None, one_at: None }, steps }
+    Case { rcfg: RCfg::new(e, r, rb), wcfg: WCfg::new(e, w, wbk), img: Img::Pattern { pat: Pat::Random, bits, seed: s.u16() as u64, zero_from: None, one_at: None }, steps, huge: None }
 }
 
 fn replay(v: &serde_json::Value, env: &Env) -> CheckResult {
